@@ -28,7 +28,7 @@ type SQLDB struct {
 	rows    map[string]map[int64]string
 	Faults  bool
 	Stats   map[string]int
-	FaultOf   map[int]string // task id -> fault injected into that task's current call
+	FaultOf map[int]string // task id -> fault injected into that task's current call
 }
 
 // NewSQLDB creates the database.
@@ -46,7 +46,7 @@ func (d *SQLDB) Open() *sql.DB {
 type sqlConnector struct{ d *SQLDB }
 
 func (c sqlConnector) Connect(context.Context) (driver.Conn, error) { return &sqlConn{c.d}, nil }
-func (c sqlConnector) Driver() driver.Driver                       { return sqlDriver{c.d} }
+func (c sqlConnector) Driver() driver.Driver                        { return sqlDriver{c.d} }
 
 type sqlDriver struct{ d *SQLDB }
 
@@ -54,9 +54,13 @@ func (s sqlDriver) Open(string) (driver.Conn, error) { return &sqlConn{s.d}, nil
 
 type sqlConn struct{ d *SQLDB }
 
-func (c *sqlConn) Prepare(q string) (driver.Stmt, error) { return nil, fmt.Errorf("fake sql: Prepare not supported") }
-func (c *sqlConn) Close() error                          { return nil }
-func (c *sqlConn) Begin() (driver.Tx, error)             { return nil, fmt.Errorf("fake sql: transactions not supported") }
+func (c *sqlConn) Prepare(q string) (driver.Stmt, error) {
+	return nil, fmt.Errorf("fake sql: Prepare not supported")
+}
+func (c *sqlConn) Close() error { return nil }
+func (c *sqlConn) Begin() (driver.Tx, error) {
+	return nil, fmt.Errorf("fake sql: transactions not supported")
+}
 
 var (
 	reSelectOne    = regexp.MustCompile(`(?i)^\s*select\s+key_record\s+from\s+encryption_key\s+where\s+id\s*=\s*(\S+)\s+and\s+created\s*=\s*(\S+)\s*$`)
